@@ -123,7 +123,9 @@ SB(b, a) ==
     IN Walk(1, a, <<>>, [a |-> a, b |-> a])
 \* entries of statement s at token index a, then those of its nested blocks
 SS(s, a, prev, first) ==
-    LET me == <<[k |-> s.t, tag |-> IF s.t \in {"select_from", "select_related"} THEN s.card ELSE "", a |-> a, b |-> a + Len(US(s)) - 1, prev |-> prev, first |-> first]>> IN
+    LET me == <<[k |-> s.t, tag |-> IF s.t \in {"select_from", "select_related"} THEN s.card ELSE "",
+                links |-> IF s.t = "select_related" THEN [i \in DOMAIN s.chain |-> <<s.chain[i].k, s.chain[i].rel, s.chain[i].ph>>] ELSE <<>>,
+                a |-> a, b |-> a + Len(US(s)) - 1, prev |-> prev, first |-> first]>> IN
     CASE s.t = "if" ->
             LET cn == Len(UE(s.c))
                 b0 == a + 1 + cn + 1
